@@ -374,6 +374,7 @@ PROPS["C02"] = {
              rapid("engine", "sched", "TestSerialEngine", 4000, 60000, shards=(2, 12), flavour="sched"),
              rapid("lsched", "sched", "TestSerialSchedules", 3000, 60000, shards=(2, 12), flavour="sched"),
              rapid("hist", "c02", "TestSerialHistories", 3000, 40000, shards=(2, 12)),
+             rapid("start", "c02", "TestStartOverlap", 400, 4000, shards=(1, 4)),
              rapid("race", "c02", "TestSerialHistories", 1500, 3000, shards=(2, 8), race=True, tiers=("thorough",))],
 }
 
